@@ -53,6 +53,19 @@ func (vc *VC) derefLoc(ref string, elemT types.Type) Loc {
 		upd: func(h, v string) string { return sto(h, ref, v) }}
 }
 
+// boxLoc: the heap cell of a boxed local variable. Locals that are boxed only because a closure assigns them
+// (their address is never taken explicitly) live in `local:` components, which no callee can reach: they survive
+// heap havoc and are havocked only after calls that receive a closure assigning them.
+func (vc *VC) boxLoc(v *types.Var, ref string) Loc {
+	l := vc.derefLoc(ref, v.Type())
+	if !vc.boxedAddr[v] {
+		if _, isStruct := under(v.Type()).(*types.Struct); !isStruct {
+			l.comp = "local:" + typeKey(v.Type())
+		}
+	}
+	return l
+}
+
 func (vc *VC) load(st *State, l Loc) *Value {
 	if l.blank {
 		return vc.zeroValue(l.T)
@@ -143,7 +156,7 @@ func (vc *VC) evalLoc(st *State, e ast.Expr) Loc {
 		}
 		if vc.boxed[v] {
 			ref := st.env[v]
-			return vc.derefLoc(ref.Term, v.Type())
+			return vc.boxLoc(v, ref.Term)
 		}
 		return Loc{isVar: true, obj: v, T: v.Type()}
 	case *ast.SelectorExpr:
@@ -356,7 +369,7 @@ func (vc *VC) evalIdent(st *State, x *ast.Ident) *Value {
 			return vc.globalVar(st, o)
 		}
 		if vc.boxed[o] {
-			return vc.load(st, vc.derefLoc(st.env[o].Term, o.Type()))
+			return vc.load(st, vc.boxLoc(o, st.env[o].Term))
 		}
 		v := st.env[o]
 		if v == nil {
